@@ -575,6 +575,8 @@ pub struct Case {
     pub nstages: usize,
     pub panic_at: Option<(usize, i64)>,
     pub macro_sched: Option<Vec<usize>>,
+    pub trail: bool,
+    pub pid: usize,
 }
 
 fn p64(s: &str) -> i64 {
@@ -631,10 +633,16 @@ pub fn parse_case(line: &str) -> Case {
             x => panic!("op {}", x),
         }
     }
-    assert!(sets.len() == 4, "expected N;C;..;C;N");
-    let nts: Vec<usize> = sets.iter().filter(|x| x.0 == "N").map(|x| x.1).collect();
-    let css: Vec<(String, usize)> = sets.iter().filter(|x| x.0 != "N").cloned().collect();
-    assert!(nts.len() == 2 && css.len() == 2, "expected two num_threads and two chunk_size setters");
+    assert!(sets.len() == 4 || sets.len() == 2, "expected N;C;..;C;N or N;C;..");
+    let trail = sets.len() == 4;
+    let mut nts: Vec<usize> = sets.iter().filter(|x| x.0 == "N").map(|x| x.1).collect();
+    let mut css: Vec<(String, usize)> = sets.iter().filter(|x| x.0 != "N").cloned().collect();
+    if !trail {
+        nts.push(nts[0]);
+        css.push(css[0].clone());
+    }
+    assert!(nts.len() == 2 && css.len() == 2, "expected num_threads and chunk_size setters in pairs");
+    let n_ops = ops.len();
     let tt: Vec<&str> = f["term"].split(':').collect();
     let term = match tt[0] {
         "cv" => Term::Cv,
@@ -682,6 +690,8 @@ pub fn parse_case(line: &str) -> Case {
         cs2: chunk(&css[1].0, css[1].1),
         term,
         panic_at,
+        trail,
+        pid: n_ops,
         macro_sched: if f.get("macro").map(|x| *x == "1").unwrap_or(false) {
             Some(if f["sched"] == "-" { vec![] } else { f["sched"].split(',').map(|x| x.parse().unwrap()).collect() })
         } else {
